@@ -60,8 +60,13 @@ def diff_states(ex, a, b, lv):
         if oa is None:
             continue
         if isinstance(ob, HObj):
+            lazy = ob.cls in ex.env.class_models
             for f, v in ob.fields.items():
-                if f not in oa.fields or not _same_val(oa.fields[f], v):
+                if f not in oa.fields:
+                    if lazy:
+                        continue     # lazily materialised read-only field of a modelled object (e.g. Config): not a write
+                    lv.fields.add((oid, f))
+                elif not _same_val(oa.fields[f], v):
                     lv.fields.add((oid, f))
         elif isinstance(ob, HList):
             if ob.items is not None and oa.items is not None:
@@ -452,9 +457,9 @@ def run_loop(ex, s, st, kind, itv):
                     if hg is not None and kind != "for" and hg.eq(g):
                         continue        # same formula as assumed at the head: trivially preserved
                     goals.append((nm, g))
-                if goals and not entails(b_st.pc, And(*[g for _, g in goals]), 4000):
+                if goals and not entails(b_st.pc, And(*[g for _, g in goals]), 8000):
                     for (nm, g) in goals:
-                        if not entails(b_st.pc, g, 4000):
+                        if not entails(b_st.pc, g, 8000):
                             failed.add(nm)
         if shape_problem is not None and os.environ.get("PYVC_DEBUG"):
             print("  [loop %d %s] shape problem: %s; active=%s dropped=%s" % (ordinal, anchor, shape_problem, [a for a, _ in active], dropped))
